@@ -85,6 +85,7 @@ type interpreter struct {
 	maxPerm            int
 	syncMaps           map[*value]*omap
 	bfst               *bfState
+	govExprs           map[*value]*govExpr
 }
 
 type deferred struct {
